@@ -1,4 +1,4 @@
-use directive::{is_directive, parse_directive, Directive, NormalDirective};
+use directive::{is_assignable, is_directive, parse_directive, Directive, NormalDirective};
 use fnv::FnvHashMap;
 use indexmap::IndexSet;
 pub use options::{Options, Regex};
@@ -433,59 +433,66 @@ where
                                     });
                                 }
 
-                                props.push(PropOrSpread::Prop(Box::new(Prop::KeyValue(
-                                    KeyValueProp {
-                                        key: match directive.argument {
-                                            Some(Expr::Lit(Lit::Null(..))) | None => {
-                                                dynamic_props.insert("onUpdate:modelValue".into());
-                                                PropName::Str(quote_str!("onUpdate:modelValue"))
-                                            }
-                                            Some(Expr::Lit(Lit::Str(Str { value, .. }))) => {
-                                                let name = format!("onUpdate:{value}");
-                                                let prop_name = PropName::Str(quote_str!(&*name));
-                                                dynamic_props.insert(name.into());
-                                                prop_name
-                                            }
-                                            Some(expr) => {
-                                                has_dynamic_keys = true;
-                                                PropName::Computed(ComputedPropName {
-                                                    span: DUMMY_SP,
-                                                    expr: Box::new(Expr::Bin(BinExpr {
+                                // an error has been reported if the bound value can't be assigned to
+                                if is_assignable(&directive.value) {
+                                    props.push(PropOrSpread::Prop(Box::new(Prop::KeyValue(
+                                        KeyValueProp {
+                                            key: match directive.argument {
+                                                Some(Expr::Lit(Lit::Null(..))) | None => {
+                                                    dynamic_props
+                                                        .insert("onUpdate:modelValue".into());
+                                                    PropName::Str(quote_str!("onUpdate:modelValue"))
+                                                }
+                                                Some(Expr::Lit(Lit::Str(Str {
+                                                    value, ..
+                                                }))) => {
+                                                    let name = format!("onUpdate:{value}");
+                                                    let prop_name =
+                                                        PropName::Str(quote_str!(&*name));
+                                                    dynamic_props.insert(name.into());
+                                                    prop_name
+                                                }
+                                                Some(expr) => {
+                                                    has_dynamic_keys = true;
+                                                    PropName::Computed(ComputedPropName {
                                                         span: DUMMY_SP,
-                                                        op: op!(bin, "+"),
-                                                        left: Box::new(Expr::Lit(Lit::Str(
-                                                            quote_str!("onUpdate"),
-                                                        ))),
-                                                        right: Box::new(expr),
-                                                    })),
-                                                })
-                                            }
-                                        },
-                                        value: Box::new(Expr::Arrow(ArrowExpr {
-                                            span: DUMMY_SP,
-                                            params: vec![Pat::Ident(BindingIdent {
-                                                id: event_ident.clone(),
-                                                type_ann: None,
-                                            })],
-                                            body: Box::new(BlockStmtOrExpr::Expr(Box::new(
-                                                Expr::Assign(AssignExpr {
-                                                    span: DUMMY_SP,
-                                                    op: op!("="),
-                                                    left: AssignTarget::Simple(
-                                                        SimpleAssignTarget::Paren(ParenExpr {
+                                                        expr: Box::new(Expr::Bin(BinExpr {
                                                             span: DUMMY_SP,
-                                                            expr: Box::new(directive.value),
-                                                        }),
-                                                    ),
-                                                    right: Box::new(Expr::Ident(event_ident)),
-                                                }),
-                                            ))),
-                                            is_async: false,
-                                            is_generator: false,
-                                            ..Default::default()
-                                        })),
-                                    },
-                                ))));
+                                                            op: op!(bin, "+"),
+                                                            left: Box::new(Expr::Lit(Lit::Str(
+                                                                quote_str!("onUpdate"),
+                                                            ))),
+                                                            right: Box::new(expr),
+                                                        })),
+                                                    })
+                                                }
+                                            },
+                                            value: Box::new(Expr::Arrow(ArrowExpr {
+                                                span: DUMMY_SP,
+                                                params: vec![Pat::Ident(BindingIdent {
+                                                    id: event_ident.clone(),
+                                                    type_ann: None,
+                                                })],
+                                                body: Box::new(BlockStmtOrExpr::Expr(Box::new(
+                                                    Expr::Assign(AssignExpr {
+                                                        span: DUMMY_SP,
+                                                        op: op!("="),
+                                                        left: AssignTarget::Simple(
+                                                            SimpleAssignTarget::Paren(ParenExpr {
+                                                                span: DUMMY_SP,
+                                                                expr: Box::new(directive.value),
+                                                            }),
+                                                        ),
+                                                        right: Box::new(Expr::Ident(event_ident)),
+                                                    }),
+                                                ))),
+                                                is_async: false,
+                                                is_generator: false,
+                                                ..Default::default()
+                                            })),
+                                        },
+                                    ))));
+                                }
                             }
                             Directive::Slots(expr) => slots = expr,
                         }
@@ -1360,8 +1367,10 @@ where
             }
         }
 
-        self.injecting_consts.splice(0..0, outer_consts.into_iter().chain(params_consts));
-        self.injecting_vars.splice(0..0, outer_vars.into_iter().chain(params_vars));
+        self.injecting_consts
+            .splice(0..0, outer_consts.into_iter().chain(params_consts));
+        self.injecting_vars
+            .splice(0..0, outer_vars.into_iter().chain(params_vars));
     }
 
     fn visit_mut_expr(&mut self, expr: &mut Expr) {
